@@ -495,6 +495,30 @@ example : (extend { ref := .item 1, isFrag := true, parent := .unset } false
             [.node (txt 5 [49]), .node (txt 6 [32]), .frag (.item 9) [(txt 7 [97]).setParent (.syn (.item 9) 0)]]).map (·.parent)
           = [.unset, .unset, .syn (.item 9) 0] := by decide
 
+/-! ## substitution depends on where the text stands, not on what was processed before -/
+
+/-- **History free**: the value created by an `appendText` call is determined by its own text and its own
+    table, whatever calls were made before on the same document (the same run of characters may stand in
+    running text and in verbatim/math material of one document). -/
+theorem appendText_history_free (h : List (Bool × List Nat)) (c : Bool × List Nat) :
+    appendTexts (h ++ [c]) = appendTexts h ++ [appendTextValue c.1 c.2] := by
+  simp [appendTexts]
+
+/-- without a table the text is kept character for character; with it, it is the substituted text -/
+theorem appendText_values (s : List Nat) :
+    appendTextValue false s = s ∧ appendTextValue true s = applySubs charsubs s := by
+  simp [appendTextValue]
+
+/-- the text node `normalize` creates for a run carries exactly that value -/
+theorem flushText_value (cs : Bool) (o : Ref) (txt : List Tree) (h : txt ≠ []) :
+    allCharsL (flushText cs o txt) = appendTextValue cs (txt.flatMap (·.it.chars)) := by
+  have : txt.isEmpty = false := by cases txt <;> simp_all
+  cases cs <;> simp [flushText, this, appendTextValue, allCharsL, allChars, textItem]
+
+/-- `\verb|it's|` then `\emph{it's}` then `\verb|it's|` again -/
+example : appendTexts [(false, [105, 116, 39, 115]), (true, [105, 116, 39, 115]), (false, [105, 116, 39, 115])] =
+    [[105, 116, 39, 115], [105, 116, 8217, 115], [105, 116, 39, 115]] := by decide
+
 /-! ## the substitution table is per document -/
 
 theorem createDocs_class (cls : SubTable) : ∀ hist, (createDocs cls hist).1 = cls
